@@ -48,6 +48,7 @@ struct Agg {
     notes: BTreeMap<String, u64>,
     samples: Vec<Value>,
     violations: Vec<(Scenario, Violation)>,
+    violation_counts: BTreeMap<(String, String), u64>,
     policies: BTreeMap<String, u64>,
     caps: BTreeMap<String, u64>,
     endings: BTreeMap<String, u64>,
@@ -118,8 +119,16 @@ impl Agg {
             self.samples.push(json!(sc.summary()));
         }
         for v in j.violations {
-            if self.violations.len() < 400 {
-                self.violations.push((sc.clone(), v));
+            // keep the smallest scenario per distinct (clause, signature)
+            let key = (v.clause.clone(), v.signature.clone());
+            *self.violation_counts.entry(key.clone()).or_insert(0) += 1;
+            match self.violations.iter_mut().find(|(_, w)| w.clause == key.0 && w.signature == key.1) {
+                Some(slot) => {
+                    if sc.script.len() < slot.0.script.len() {
+                        *slot = (sc.clone(), v);
+                    }
+                }
+                None => self.violations.push((sc.clone(), v)),
             }
         }
     }
@@ -341,7 +350,7 @@ pub fn run_check(def: &PropDef, tier: Tier, seed: u64, max_items: Option<u64>) -
                         *watch[w].lock().unwrap() = None;
                         let mut a = agg.lock().unwrap();
                         a.add(&sc, j);
-                        if a.violations.len() >= 200 {
+                        if a.violations.len() >= 60 {
                             stop.store(true, Ordering::Relaxed);
                         }
                     }
@@ -387,6 +396,9 @@ pub fn run_check(def: &PropDef, tier: Tier, seed: u64, max_items: Option<u64>) -
     let mut new_groups: Vec<(Scenario, Violation)> = vec![];
     let mut known_hits: BTreeMap<String, u64> = BTreeMap::new();
     let mut foreign = 0u64;
+    for ((c, sg), n) in &agg.violation_counts {
+        println!("  {n:>6}x {c} :: {}", sg.chars().take(200).collect::<String>());
+    }
     for (sc, v) in std::mem::take(&mut agg.violations) {
         if v.property != def.id {
             foreign += 1;
